@@ -2,7 +2,10 @@ package onchain
 
 import (
 	"encoding/hex"
+	"errors"
 
+	"github.com/btcsuite/btcd/btcec/v2"
+	"github.com/btcsuite/btcd/btcec/v2/ecdsa"
 	"github.com/btcsuite/btcd/txscript"
 	"github.com/elementsproject/peerswap/swap"
 )
@@ -69,6 +72,26 @@ func GetCsvWitness(signature, redeemScript []byte) [][]byte {
 	witness = append(witness, sigWithHashType)
 	witness = append(witness, redeemScript)
 	return witness
+}
+
+// VerifyTakerSignature checks the signature made with the key the peer sent in
+// its coop_close against the taker pubkey of the opening script. The peer can
+// send any well-formed key: a cooperative spend signed with another one is
+// invalid, and a backend that cannot validate transactions would still accept
+// it, ending the swap without the funds being claimed.
+func VerifyTakerSignature(sig *ecdsa.Signature, sigHash []byte, takerPubkeyHex string) error {
+	pubkeyBytes, err := hex.DecodeString(takerPubkeyHex)
+	if err != nil {
+		return err
+	}
+	takerPubkey, err := btcec.ParsePubKey(pubkeyBytes)
+	if err != nil {
+		return err
+	}
+	if sig == nil || !sig.Verify(sigHash, takerPubkey) {
+		return errors.New("coop close key does not match the taker pubkey")
+	}
+	return nil
 }
 
 func GetCooperativeWitness(takerSig, makerSig, redeemScript []byte) [][]byte {
